@@ -13,12 +13,17 @@ def legs(scn, q_runs, q_budget, t_runs, t_budget, **kw):
     return {'quick': [dict(scenario=scn, runs=q_runs, budget=q_budget, **kw)],
             'thorough': [dict(scenario=scn, runs=t_runs, budget=t_budget, **kw)]}
 
-PROPS = {
+PROPS_PRE = {
     'C01': dict(level='exploration', rule=NONTRIVIAL, assumptions=COMMON_ASSUMPTIONS,
                 legs=legs('C01', 6000, 60, 400000, 1500), reports=['C01']),
     'C02': dict(level='exploration', rule=NONTRIVIAL, assumptions=COMMON_ASSUMPTIONS,
                 legs=legs('C02', 6000, 60, 400000, 1500), reports=['C02']),
 }
+
+PROPS = dict(PROPS_PRE)
+for _pid, _scn in [('C05','C05'),('C06','C06'),('C07','C07'),('C10','C10'),('C11','C11'),('C12','C12'),('C15','C15')]:
+    PROPS[_pid] = dict(level='exploration', rule=NONTRIVIAL, assumptions=COMMON_ASSUMPTIONS,
+                       legs=legs(_scn, 6000, 60, 400000, 1500), reports=[_pid])
 
 SIM_NOTE = ("Trusted base: the instrumenter and simulator runtime under /verif (scheduling points at every lock/cond/channel/select/goroutine start; "
             "seeded select and map-iteration order), Go 1.26.8 testing/synctest, the harness' own decoder and reference models. "
@@ -35,6 +40,33 @@ MANIFEST_TEXT = {
                 note=SIM_NOTE + ' Workload precondition: concurrently in-progress messages fit in half the receive buffer.'),
 }
 
+MANIFEST_TEXT.update({
+    'C05': dict(design_ref='DESIGN.md §5 C05',
+                technique='deterministic simulation: every emitted SACK judged against wire ground truth (delivered DATA/FORWARD-TSN) and a set-based reference receiver, incl. initial TSNs at the 2^32 wrap',
+                text='Seeded exploration (reordering, duplicates, loss, FORWARD-TSN, wrap-biased initial TSNs, buffer sizes); soundness of cumulative point and gap blocks is checked on every emitted SACK of every run, completeness (SACK == reference receiver) wherever nothing may legitimately be refused. Evidence, not proof.',
+                note=SIM_NOTE),
+    'C06': dict(design_ref='DESIGN.md §5 C06',
+                technique='deterministic simulation: RefStream oracle per ordering/reliability policy on every read, per-TSN transmission counts and times on the wire',
+                text='Seeded exploration over ordered/unordered x reliable/rexmit/timed streams with DCEP messages, loss up to 60%; reads are attributed to unique writes (at most once, intact, order per policy), wire monitor bounds transmissions per TSN by the stream policy. Two recorded known findings (KF1, KF2). Evidence, not proof.',
+                note=SIM_NOTE),
+    'C07': dict(design_ref='DESIGN.md §5 C07',
+                technique='deterministic simulation: FORWARD-TSN content vs. set of abandoned chunks on the wire, tail messages and reliable canaries must still arrive (bounded), written = delivered + skipped',
+                text='Seeded exploration with abandoned first/last/partially received messages, lost and duplicated FORWARD-TSNs, mixed policies; every emitted (I-)FORWARD-TSN is checked against the chunks it skips, and later messages must be delivered within the C02 bound. Two recorded known findings (KF4, KF5) whose trigger regions are excluded from the search and replayed as witnesses. Evidence, not proof.',
+                note=SIM_NOTE),
+    'C10': dict(design_ref='DESIGN.md §5 C10',
+                technique='deterministic simulation: per-emission accounting of outstanding bytes vs cwnd snapshot and delivered a_rwnd; cwnd laws at T3 / fast-recovery steps',
+                text='Seeded exploration with small buffers, slow readers, loss (T3, fast retransmit, RACK/PTO), MTU/MinCwnd/CwndCAStep swarm; each first emission of a TSN is checked against cwnd at the start of the step and the most recently delivered a_rwnd (single-chunk probe exception), every DATA packet against the MTU, cwnd against its floor and cuts. Evidence, not proof.',
+                note=SIM_NOTE),
+    'C11': dict(design_ref='DESIGN.md §5 C11',
+                technique='deterministic simulation: white-box byte counters vs bytes reachable at every step, a_rwnd of every emitted SACK vs buffer minus counters, end-state zero',
+                text='Seeded exploration with duplicates, reordering, abandoned fragments, slow readers, small buffers; counters are compared with the bytes actually reachable after every scheduling step, each emitted a_rwnd with buffer minus counters at gather time, and after a drained run nothing may be held. One recorded known finding (KF3). The hostile-sender bounds are exercised by C03. Evidence, not proof.',
+                note=SIM_NOTE),
+    'C12': dict(design_ref='DESIGN.md §5 C12',
+                technique='deterministic simulation: every emitted packet decoded by an independent decoder, differentially against the repository decoder, re-encoded for stability',
+                text='Every packet emitted in the seeded runs (handshake variants, DATA/I-DATA, SACK, FORWARD-TSN, heartbeats, ...) must be accepted by the independent RFC decoder, decode identically with the repository decoder and re-encode to the same bytes; mandatory parameters are checked. Evidence, not proof.',
+                note=SIM_NOTE),
+})
+
 # properties whose check is not built yet (kept current as the work proceeds)
 NOT_BUILT = {pid: 'check not built yet in this session (work in progress, see DESIGN.md §10)' for pid in
-             ['C%02d' % i for i in range(3, 21)]}
+             ['C03','C04','C08','C09','C13','C14','C15','C16','C17','C18','C19','C20']}
